@@ -258,7 +258,7 @@ class Parser:
                         break
                 self.expect_op(")")
                 return ("ppath", segs, ps)
-            if len(segs) == 1 and segs[0][0].islower():
+            if len(segs) == 1 and (segs[0][0].islower() or segs[0][0] == '_'):
                 return ("pbind", segs[0])
             return ("ppath", segs, None)
         raise Unsupported(f"pattern at {self.context()}")
